@@ -686,23 +686,43 @@ fn store(args: &Args) {
         let mut accepted: Vec<(u64, [u8; 32])> = vec![];
         let mut clean = true; // a gap-free descending prefix of right secrets
         let mut expect = INITIAL;
+        // the property itself: as long as the stream is the gap-free descending sequence of the
+        // channel's own secrets, each is accepted and every earlier one is returned; checked at the
+        // moment the clean prefix ends (what is provided afterwards may evict: that is C03's matter)
+        let check_prefix = |st: &CounterpartyCommitmentSecrets, accepted: &Vec<(u64, [u8; 32])>| {
+            for (i, s) in accepted {
+                let r = catch_unwind(AssertUnwindSafe(|| st.get_secret(*i)));
+                if !matches!(r, Ok(Some(x)) if x == *s) {
+                    emit("MONITOR", json!({"case": case, "what": "an earlier secret of the descending sequence is not returned by get_secret", "idx": i.to_string(), "after": accepted.len()}));
+                }
+            }
+        };
         for (i, s) in &ops {
+            let is_clean = clean && *i == expect && *i <= INITIAL && *s == build_commitment_secret(&cseed, *i);
+            if clean && !is_clean {
+                check_prefix(&st, &accepted);
+                clean = false;
+            }
             let ok = st.provide_secret(*i, *s).is_ok();
             if ok {
                 n_ok += 1;
             } else {
                 n_err += 1;
             }
-            if clean && *i == expect && *i <= INITIAL && *s == build_commitment_secret(&cseed, *i) {
+            if is_clean {
                 accepted.push((*i, *s));
                 expect = expect.wrapping_sub(1);
                 if !ok {
                     emit("MONITOR", json!({"case": case, "what": "a correct next secret of the descending sequence was refused", "idx": i.to_string()}));
                 }
-            } else {
-                clean = false;
+                if accepted.len() <= 16 || accepted.len() % 16 == 0 {
+                    check_prefix(&st, &accepted);
+                }
             }
             trace.push((ok, st.get_min_seen_secret()));
+        }
+        if clean {
+            check_prefix(&st, &accepted);
         }
         let fin = store_state(&st);
         max_len = max_len.max(fin.len());
@@ -738,14 +758,6 @@ fn store(args: &Args) {
                 }
             };
             queries.push((*q, kind_n, s));
-        }
-        // the property itself: every secret of the clean descending prefix is returned (as long as
-        // nothing after it was accepted out of line, which provide_secret never does)
-        for (i, s) in &accepted {
-            let r = catch_unwind(AssertUnwindSafe(|| st.get_secret(*i)));
-            if !matches!(r, Ok(Some(x)) if x == *s) {
-                emit("MONITOR", json!({"case": case, "what": "an earlier secret of the descending sequence is not returned by get_secret", "idx": i.to_string()}));
-            }
         }
         if fin.len() > 49 {
             emit("MONITOR", json!({"case": case, "what": "the compact store holds more than 49 entries", "len": fin.len()}));
